@@ -196,6 +196,48 @@ fn one_case(ctx: &Ctx, case: u64, l: &mut Local) {
         }
     }
 
+    // ---- issuers of the other JWS families (RSA of 2048 / 3072 / 4096 bits, P-384) through the signing
+    // oracle: the same signed payload and disclosures in both forms, honest and with one character of
+    // the signature changed
+    if case % 16 == 9 {
+        if let Ok(pl) = issued.parts.payload() {
+            let names: Vec<&str> = crate::keys::EXTRA_ALGS.iter().copied().chain(crate::keys::BIG_RSA.iter().copied()).collect();
+            let an = *r.pick(&names);
+            let mut h = jsonwebtoken::Header::new(crate::keys::extra_alg(an));
+            h.typ = None;
+            if let Ok(jwt) = jsonwebtoken::encode(&h, &pl, &crate::keys::extra_enc(an)) {
+                for tampered in [false, true] {
+                    let mut t = Parts { jwt: jwt.clone(), disclosures: issued.parts.disclosures.clone(), kb: None };
+                    if tampered {
+                        let pos = t.jwt.len() - 1 - r.usize(40);
+                        let c = t.jwt.as_bytes()[pos];
+                        t.jwt = format!("{}{}{}", &t.jwt[..pos], if c == b'A' { 'B' } else { 'A' }, &t.jwt[pos + 1..]);
+                    }
+                    if let (c, Some(j)) = (t.to_compact(), t.to_json(r.next())) {
+                        let a = api::verify(&c, &Resolver::Extra(an), None, Fmt::Compact).out;
+                        let b = api::verify(&j, &Resolver::Extra(an), None, Fmt::Json).out;
+                        l.evals += 1;
+                        let same = match (&a, &b) {
+                            (Outcome::Ok(x), Outcome::Ok(y)) => x == y,
+                            (Outcome::Err(_), Outcome::Err(_)) => true,
+                            _ => false,
+                        };
+                        if same && (tampered || a.is_ok()) {
+                            l.count(if tampered { "pair.extra-alg.same-reject" } else { "pair.extra-alg.same-accept" });
+                        } else {
+                            l.violate(Violation {
+                                subcheck: "formats-diverge".into(),
+                                class: format!("issuer key {an} ({})", if tampered { "signature character changed" } else { "honest" }),
+                                observed: format!("Compact={} JSON={}", a.class(), b.class()),
+                                case,
+                                detail: json!({"credential": desc, "issuer_key": an, "compact_result": a.describe().chars().take(200).collect::<String>(), "json_result": b.describe().chars().take(200).collect::<String>()}),
+                            });
+                        }
+                    }
+                }
+            }
+        }
+    }
     let pres = match api::holder_new(&issued.sd_jwt, fmt0) {
         Outcome::Ok(mut h) => match api::present(&mut h, &sel, kb.as_ref()) {
             Outcome::Ok(p) => p,
